@@ -57,7 +57,7 @@ func (e *Engine) protectedStore(o *Obj) {
 	var m map[string]uint64
 	if e.solver != nil {
 		e.solver.SetTimeout(e.cfg.AssertTimeout)
-		_, m = e.solver.CheckWithModel(e.inputVars())
+		_, m = e.checkModel(e.inputVars())
 	}
 	e.recordViolation("protected-store", "write into "+o.Protected+" ("+o.Name+")", m)
 }
